@@ -1,4 +1,7 @@
 import Tau.Rule
+import Tau.Proofs.Pratt
+import Tau.Proofs.Safe
+import Tau.Proofs.MappingSafe
 /-
   C03 — An accepted rule can always be evaluated (no panic after load).
 -/
@@ -82,6 +85,33 @@ def rejectedWith (r : Except Err Expr) (e : Err) : Bool :=
   | .error e' => e' == e
   | .ok _ => false
 
+/-- Everything the condition parser returns is built from identifiers, all()/of() over
+    identifiers, casts and literals by `not`, `and`, `or` and comparisons; the operands of
+    `and`/`or`/`not` are predicates and the operands of comparisons are casts/literals. -/
+theorem parsed_condition_shape (ts : List Token) (e : Expr) (h : parse ts = .ok e) : PShape e :=
+  parse_shape ts e h
+
+/-- A loaded rule's condition has that shape and is solvable. -/
+theorem loaded_condition_shape (E : RegexEngine) (ic : Bool) (entries : List (Str × Yaml)) (d : Detection)
+    (h : loadDetection E ic entries = .ok d) : PShape d.expr ∧ d.expr.isSolvable = true := by
+  refine ⟨?_, load_solvable E ic entries d h⟩
+  unfold loadDetection at h
+  split at h
+  · cases h
+  · split at h
+    · cases h
+    · split at h
+      · cases h
+      · split at h
+        · cases h
+        · split at h
+          · cases h
+          · rename_i tokens _ _ e he
+            split at h
+            · cases h
+            · cases h
+              exact parse_shape _ _ he
+
 /-- The conditions the unrepaired source accepted and then panicked on are load errors now. -/
 example :
     rejectedWith (condResult "A and 1") .parseLedFollowing = true ∧
@@ -89,5 +119,117 @@ example :
     rejectedWith (condResult "A and not(B)") .parseLedFollowing = true ∧
     rejectedWith (condResult "A and B") .parseLedFollowing = false := by
   decide +kernel
+
+/-- **Matching never panics on a safe rule**, whatever value kinds the document returns: `d` is a
+    mapping or an ARBITRARY user document (`Doc.user g`, any function). `hitsTop` is true exactly
+    when evaluation reaches `unreachable!()`, an undefined identifier or an out-of-range access of
+    the matrix cache (Tau/Safe.lean). -/
+theorem safe_rule_never_panics (E : RegexEngine) (ids : Ids) (g : Str → Option Value) (e : Expr)
+    (hbodies : ∀ i b, lookupId ids i = some b → safe (fun _ => false) b = true)
+    (he : safe (fun i => (lookupId ids i).isSome) e = true) :
+    hitsTop E ids (.user g) e = false :=
+  top_no_hits E ids (.user g) (noFP_user g) e hbodies he
+
+theorem safe_rule_never_panics_mapping (E : RegexEngine) (ids : Ids) (kvs : List (Str × Value)) (e : Expr)
+    (hbodies : ∀ i b, lookupId ids i = some b → safe (fun _ => false) b = true)
+    (he : safe (fun i => (lookupId ids i).isSome) e = true) :
+    hitsTop E ids (.obj kvs) e = false :=
+  top_no_hits E ids (.obj kvs) (noFP_obj kvs) e hbodies he
+
+/-- The condition of a loaded rule is safe as soon as the identifiers it mentions are defined
+    (the loader's scan, rule.rs:104-125, is what establishes that; see `load_idents_present`). -/
+theorem loaded_condition_safe (E : RegexEngine) (ic : Bool) (entries : List (Str × Yaml)) (d : Detection)
+    (h : loadDetection E ic entries = .ok d)
+    (hdef : ∀ i ∈ condIdents d.expr, (lookupId d.ids i).isSome = true) :
+    safe (fun i => (lookupId d.ids i).isSome) d.expr = true := by
+  obtain ⟨hshape, hsolv⟩ := loaded_condition_shape E ic entries d h
+  exact pshape_safe _ d.expr hshape hsolv hdef
+
+/-- A well-formed matrix (what `matrix()` builds: rows no wider than the columns, cell `i` keyed by
+    the synthetic key of column `i`, fewer than 0xD800 columns) is safe to evaluate. -/
+example : safe (fun _ => false)
+    (.matrix [['a'], ['b']] [[some (.search (.exact ['x']) (colKey 0) false), none],
+                             [none, some (.bin (.field (colKey 1)) .eq (.int 1))]]) = true := by decide
+
+/-- …and a cell keyed by a real field name (what the unrepaired matrix built for a comparison of
+    two casts) is not. -/
+example : safe (fun _ => false)
+    (.matrix [['a']] [[some (.bin (.cast (colKey 0) .int) .eq (.cast ['b'] .int))]]) = false := by decide
+
+end Tau.C03
+
+namespace Tau.C03
+open Tau
+
+theorem lookup_mem (ids : Ids) (i : Str) (b : Expr) (h : lookupId ids i = some b) : (i, b) ∈ ids := by
+  induction ids with
+  | nil => simp [lookupId] at h
+  | cons x xs ih =>
+    obtain ⟨k, e⟩ := x
+    simp only [lookupId] at h
+    split at h
+    · rename_i hk; cases h; simp at hk; subst hk; simp
+    · exact List.mem_cons_of_mem _ (ih h)
+
+/-- The visitor loop only ever stores safe identifier bodies. -/
+theorem loadEntries_bodies_safe (E : RegexEngine) (ic : Bool) (entries : List (Str × Yaml)) (st st' : LoadSt)
+    (hst : ∀ p ∈ st.ids, safe nod p.2 = true) (h : loadEntries E ic entries st = .ok st') :
+    ∀ p ∈ st'.ids, safe nod p.2 = true := by
+  induction entries generalizing st with
+  | nil => simp [loadEntries] at h; cases h; exact hst
+  | cons x xs ih =>
+    obtain ⟨key, v⟩ := x
+    simp only [loadEntries] at h
+    split at h
+    · split at h
+      · cases h
+      · split at h
+        · exact ih _ (by exact hst) h
+        · cases h
+    · split at h
+      · cases h
+      · split at h
+        · cases h
+        · rename_i e hp
+          refine ih _ ?_ h
+          intro p hp'
+          simp only [List.mem_append, List.mem_singleton] at hp'
+          rcases hp' with hp' | rfl
+          · exact hst p hp'
+          · exact parseIdentifier_safe E ic v e hp
+
+/-- Every identifier of a loaded rule is a safe closed tree. -/
+theorem loaded_bodies_safe (E : RegexEngine) (ic : Bool) (entries : List (Str × Yaml)) (d : Detection)
+    (h : loadDetection E ic entries = .ok d) :
+    ∀ i b, lookupId d.ids i = some b → safe nod b = true := by
+  unfold loadDetection at h
+  split at h
+  · cases h
+  · rename_i st hst
+    have hall := loadEntries_bodies_safe E ic entries {} st (by intro p hp; cases hp) hst
+    split at h
+    · cases h
+    · split at h
+      · cases h
+      · split at h
+        · cases h
+        · split at h
+          · cases h
+          · split at h
+            · cases h
+            · cases h
+              intro i b hl
+              exact hall (i, b) (lookup_mem _ i b hl)
+
+/-- **If loading succeeds, matching never panics** — for the unoptimised rule, against any mapping
+    or any user document (any value kinds), provided the identifiers the condition mentions exist
+    (which is what the loader's scan establishes; `load_idents_present`). No `unreachable!()`, no
+    undefined identifier, no out-of-range cache access is reachable. -/
+theorem loaded_rule_never_panics (E : RegexEngine) (ic : Bool) (entries : List (Str × Yaml)) (d : Detection)
+    (h : loadDetection E ic entries = .ok d)
+    (hdef : ∀ i ∈ condIdents d.expr, (lookupId d.ids i).isSome = true) (g : Str → Option Value) :
+    hitsTop E d.ids (.user g) d.expr = false :=
+  safe_rule_never_panics E d.ids g d.expr (loaded_bodies_safe E ic entries d h)
+    (loaded_condition_safe E ic entries d h hdef)
 
 end Tau.C03
